@@ -249,8 +249,10 @@ Close(x) ==
 Parked(x) == T[x].st = "park"
 
 \* the transport hands the first k units in flight to the parked side.  The pump asks for at most
-\* 65536 bytes (transport.receive() default): three full 16 KiB records fit, four do not.
-MaxChunk(x) == IF cfg.big[Peer(x)] THEN 6 ELSE 99
+\* 65536 bytes (transport.receive() default): of full 16 KiB records three fit (six units from a
+\* record boundary on); tail + two records + head of a fourth may not, so five units otherwise.
+MaxChunk(x) == IF ~cfg.big[Peer(x)] THEN 99
+               ELSE IF pipe[x] # <<>> /\ pipe[x][1].i = 1 THEN 6 ELSE 5
 Deliver(x) == \E k \in 1..Min(Len(pipe[x]), MaxChunk(x)) :
   /\ Parked(x) /\ ~eofd[x]
   /\ Run(x, [E[x] EXCEPT !.bin = @ \o SubSeq(pipe[x], 1, k)], T[x].pc, T[x].arg,
